@@ -11,9 +11,10 @@
     `events_block_roundtrip`: for every lawful number codec);
   * file level for those sections: `records_roundtrip`.
   * layer 3 in part: `circle_rt`, `spinner_rt`, `hold_rt` (one line, any decoder state); layer 4 in part:
-    `samples_bank_info_rt` (`get_sample_bank` against `read_custom_sample_banks`).
+    `samples_bank_info_rt` (`get_sample_bank` against `read_custom_sample_banks`) and `samples_rt` (names and banks of a
+    sample list in the decoder's shape come back through `convert_sound_type`).
   Still only statements (evaluated by the `rt` oracle and the three-way `rt` correspondence): sliders (path string, node
-  samples), the sample list itself (names and banks through `convert_sound_type`), timing points (layer 5 of DESIGN 5.2),
+  samples), timing points (layer 5 of DESIGN 5.2),
   the map-level assembly over all objects, and hence the full `roundtrip_statement`.
 -/
 import RosuModel.Model.Encode
@@ -196,6 +197,24 @@ theorem samples_bank_info_rt (samples : List HitSampleInfo) (mode : GameMode) (h
   exact RtObjects.read_bankStr _ _ _ _ _ hs.file.noColon hs.custom hs.volume
 
 example := samples_bank_info_rt RtObjects.sampleSamples GameMode.mania (RtObjects.sampleSamples_rep _)
+
+/-- **samples_rt** (layer 4, the sample-list half): for a sample list in the decoder's own shape — a `Normal` sample with
+a specified bank or a custom file, then any subset of finish / whistle / clap (in this order) sharing a specified
+addition bank — the list the decoder rebuilds from the written hit-sound byte and bank string has the same names and
+banks, in the same order. (Volume, custom-bank index, suffix and layering flag are outside the preserved view.) -/
+theorem samples_rt (mode : GameMode) (first sF sW sC : HitSampleInfo) (fi wh cl : Bool) (ab : SampleBank) (hab : ab ≠ .none)
+    (hfirst : (first.name = .default .normal ∧ first.bank ≠ .none) ∨
+              (∃ f : Str, first.name = .file f ∧ f.isEmpty = false ∧ first.bank = SampleBank.normal))
+    (hF : sF.name = .default .finish) (hFb : sF.bank = ab) (hW : sW.name = .default .whistle) (hWb : sW.bank = ab)
+    (hC : sC.name = .default .clap) (hCb : sC.bank = ab) :
+    (RtObjects.decodedSamples (first :: (RtObjects.optS fi sF ++ RtObjects.optS wh sW ++ RtObjects.optS cl sC)) mode).map RtObjects.nameBank =
+      (first :: (RtObjects.optS fi sF ++ RtObjects.optS wh sW ++ RtObjects.optS cl sC)).map RtObjects.nameBank := by
+  rcases hfirst with ⟨h1, h2⟩ | ⟨f, h1, h2, h3⟩
+  · exact RtObjects.decoded_names_banks_default mode first sF sW sC fi wh cl first.bank ab h1 rfl h2 hab hF hFb hW hWb hC hCb
+  · exact RtObjects.decoded_names_banks_file mode first sF sW sC fi wh cl f ab h1 h2 h3 hab hF hFb hW hWb hC hCb
+
+example : (RtObjects.decodedSamples RtObjects.sampleSamples GameMode.osu).map RtObjects.nameBank =
+    RtObjects.sampleSamples.map RtObjects.nameBank := by decide
 
 /-- the full property, not yet a theorem: for a decoded map with chronological lines, the re-decoded map agrees
 on the whole preserved view — here stated for the parts not covered by `records_roundtrip`: the hit objects (kinds,
